@@ -76,10 +76,45 @@ def cases(tier):
                                     yield {"labels": labels + [f"required-via={route}"], "payload": {
                                         "doc": gen.base_doc(c2, version=version), "pos": pos, "kind": kind, "notation": notation, "required": req,
                                         "default": None, "has_default": False, "key": key + "/" + route}}
+                            if not req:
+                                # the property is inherited by a child that states it more strictly: M itself (and a sibling
+                                # that only inherits) must keep their own three states, whatever the declaration order
+                                stricter = [("child-requires", {"required": ["p"]})]
+                                if ks in DEFAULTS and not dflt:
+                                    stricter.append(("child-defaults", {"type": "object", "properties": {"p": _with_default(sch, DEFAULTS[ks])}}))
+                                    stricter.append(("child-redeclares-required", {"type": "object", "required": ["p"], "properties": {"p": copy.deepcopy(sch)}}))
+                                for route, member in stricter:
+                                    for order in ("kid-first", "kid-last"):
+                                        kid = {"allOf": [{"$ref": "#/components/schemas/M"}, member]}
+                                        sib = {"allOf": [{"$ref": "#/components/schemas/M"}, {"type": "object", "properties": {"s": {"type": "string"}}}]}
+                                        c2 = dict(copy.deepcopy(comps))
+                                        c2 = ({"Kid": kid, **c2, "Sib": sib} if order == "kid-first" else {"Sib": sib, **c2, "Kid": kid})
+                                        yield {"labels": labels + [f"inherited-by={route}", order], "payload": {
+                                            "doc": gen.base_doc(c2, version=version), "pos": pos, "kind": kind, "notation": notation, "required": req,
+                                            "default": DEFAULTS[ks] if dflt else None, "has_default": dflt, "key": key,
+                                            "also": ["Sib"], "ctx": route}}
                         else:
                             path = "/r/{p}" if pos == "path" else "/r"
+                            param = {"name": "p", "in": pos, "required": req, "schema": sch}
+                            ok = {"200": {"description": "d"}}
                             doc = gen.base_doc(comps or None, version=version, paths={path: {"get": {"operationId": "getR", "parameters": [
-                                {"name": "p", "in": pos, "required": req, "schema": sch}], "responses": {"200": {"description": "d"}}}}})
+                                param], "responses": ok}}})
+                            # the same parameter object used by several operations: every use keeps the three states
+                            path2 = "/s/{p}" if pos == "path" else "/s"
+                            shared = {
+                                "pathitem": {path: {"parameters": [copy.deepcopy(param)],
+                                                    "get": {"operationId": "getR", "responses": ok}, "post": {"operationId": "postR", "responses": ok},
+                                                    "delete": {"operationId": "delR", "responses": ok}}},
+                                "component": {path: {"get": {"operationId": "getR", "parameters": [{"$ref": "#/components/parameters/Shared"}], "responses": ok}},
+                                              path2: {"get": {"operationId": "getS", "parameters": [{"$ref": "#/components/parameters/Shared"}], "responses": ok},
+                                                      "put": {"operationId": "putS", "parameters": [{"$ref": "#/components/parameters/Shared"}], "responses": ok}}}}
+                            for use, paths in shared.items():
+                                d2 = gen.base_doc(comps or None, version=version, paths=paths)
+                                if use == "component":
+                                    d2.setdefault("components", {})["parameters"] = {"Shared": copy.deepcopy(param)}
+                                yield {"labels": labels + [f"shared-by={use}"], "payload": {
+                                    "doc": d2, "pos": pos, "kind": kind, "notation": notation, "required": req,
+                                    "default": DEFAULTS[ks] if dflt else None, "has_default": dflt, "key": key, "ctx": use}}
                         yield {"labels": labels, "payload": {"doc": doc, "pos": pos, "kind": kind, "notation": notation, "required": req,
                                                              "default": DEFAULTS[ks] if dflt else None, "has_default": dflt, "key": key}}
 
@@ -110,12 +145,26 @@ def _admits_unset(ann):
 
 
 def _model(p, res, sb):
-    from checks.c02 import err_class, find_class
+    from checks.c02 import find_class
+    out = None
+    for comp in ["M"] + list(p.get("also", ())):
+        cls = find_class(res, sb, comp)
+        if cls is None:
+            if comp == "M":
+                return None
+            continue
+        v = _model_one(p, cls, sb, p["key"])
+        if p.get("ctx"):      # the context is part of the explanation, not of the signature: the expectation is the context-free one
+            for x in v:
+                x["detail"] += f"  [{'parent' if comp == 'M' else 'sibling'} of a child that {p['ctx']}]"
+        out = (out or []) + v
+    return out
+
+
+def _model_one(p, cls, sb, key):
+    from checks.c02 import err_class
     viol = []
-    key, pos = p["key"], "model"
-    cls = find_class(res, sb, "M")
-    if cls is None:
-        return None
+    pos = "model"
     unset = sb.mod("types").UNSET
     nullable = p["notation"] != "none"
     sig = inspect.signature(cls)
@@ -185,12 +234,24 @@ def _model(p, res, sb):
 
 
 def _param(p, res, sb):
-    from checks.c02 import err_class
-    viol = []
-    key, pos = p["key"], p["pos"]
     if not res.endpoints:
         return None
-    ep = res.endpoints[0]
+    out = []
+    for i, ep in enumerate(res.endpoints):
+        v = _param_one(p, res, sb, ep, p["key"])
+        if v is None:
+            return None
+        if p.get("ctx"):
+            for x in v:
+                x["detail"] += f"  [use #{i + 1} ({ep['name']}) of a parameter shared through {p['ctx']}]"
+        out += v
+    return out
+
+
+def _param_one(p, res, sb, ep, key):
+    from checks.c02 import err_class
+    viol = []
+    pos = p["pos"]
     mod = wire.endpoint_module(sb, ep)
     unset = sb.mod("types").UNSET
     nullable = p["notation"] != "none"
